@@ -33,6 +33,9 @@ THEOREMS = [
     "Nix.C19.C19_force_roundtrip",
     "Nix.C19.C19_force_refused_unchanged",
     "Nix.C19.C19_force_only_own_stamp",
+    "Nix.C19.C19_link_setters_touch_linked",
+    "Nix.C19.C19_link_setter_local",
+    "Nix.C19.C19_touch_targets",
     "Nix.C19.C19_creators_stamp_both",
     "Nix.C19.C19_factories_stamp_both",
     "Nix.C19.C19_factories_cover_kinds",
@@ -63,14 +66,26 @@ ASSUMPTIONS = [
     "the created_at / updated_at getters are modelled through their generated body shape (parse the stored attribute); "
     "handles have no state in the model, which the oracle checks on the implementation by reading every stamp through "
     "fresh and kept handles",
+    "creation: the translator reads the statements of create_new / create_* that concern the new entity (super chain, "
+    "force calls, setters and methods run on it, anything naming the machinery); conditions are not interpreted (a "
+    "setter under a condition may or may not have run); copies made with copy_from= keep the stamps of their source and "
+    "are not modelled (the oracle runs them: an id-keeping copy as the other value of link attributes)",
+    "a call on a sub-object is modelled as a call on behalf of an entity: dimension setters / link methods on behalf of "
+    "the array that owns the dimension, the label / unit setters of a LINKED dimension (DimensionLink) on behalf of the "
+    "linked data object; which object a link points to is not modelled (the harness names it)",
+    "the switch as the user set it (open argument, assignment, re-open argument) is what the oracle judges by; the "
+    "File object's own value is compared with the model after every operation",
     "uuid4 freshness; HDF5 attribute storage modelled, not verified",
 ]
 TRUSTED_EXTRA = ["harness/extract/setters.py recognises the idiom `if self.file.auto_update_timestamps: "
-                 "self.force_updated_at()` (and the inline variant of feature.py) by AST in every method of every class, "
+                 "self.force_updated_at()` (the inline variant of feature.py, and the variant of DimensionLink that "
+                 "stamps the linked data object `lobj = self._linked_group()`) by AST in every method of every class, "
                  "computes by a path-sensitive flow analysis (if / loops / try / with / early return / raise, calls "
                  "through self summarised to a fixpoint) the reachable (exit, touch state) pairs of every member, "
                  "verifies the shape of force_created_at / force_updated_at, renders the body shape of the created_at / "
-                 "updated_at getters and Python's MRO"]
+                 "updated_at getters and Python's MRO; classifies every place of nixio/**/*.py that names the switch "
+                 "(switchUses); renders the steps every create_new class method, every create_* factory and "
+                 "File.__init__ perform on the new entity's stamps (Generated/Creation.lean)"]
 
 T2100 = 4102444800
 KINDS = ["file", "block", "group", "data_array", "data_frame", "tag", "multi_tag", "source", "section", "property",
@@ -326,6 +341,9 @@ class Session:
             o = p.create_group(name, typ)
         elif kind == "source":
             o = p.create_source(name, typ)
+        elif kind == "data_array" and "copy_from" in args:
+            # a copy that keeps the id of its source (and its time stamps): oracle histories only, not modelled
+            o = p.create_data_array(name, copy_from=self.fetch(args["copy_from"]))
         elif kind == "data_array":
             kw = {k: self.special(args[k]) for k in ("dtype", "unit", "label") if k in args}
             if "shape" in args:
@@ -384,9 +402,12 @@ class Session:
         v = self.special(v)
         # what the attribute reads as before / after the call (through a fresh handle), to know whether the call
         # *changed* it; a method that adds a dimension always changes the entity when it returns
-        observe = how == "set" and via is None and m in LISTED
+        observe = (how == "set" and via is None and m in LISTED) or how == "dimlink"
+        attr = m
+        if how == "dimlink" and self.ents[e]["kind"] == "data_frame" and m == "unit":
+            attr = "units"        # the unit of a linked frame column is an element of the frame's `units`
         self.last_call = {"changed": None}
-        before = self.read_attr(e, m) if observe else None
+        before = self.read_attr(e, attr) if observe else None
         if how == "set":
             if m == "data_extent" and isinstance(v, list):
                 v = tuple(v)
@@ -397,6 +418,17 @@ class Session:
             getattr(o, m)(*self.special(args.get("args", [])), **args.get("kwargs", {}))
         elif how == "setitem":
             o[tuple(args["key"]) if isinstance(args["key"], list) else args["key"]] = v
+        elif how == "dim":
+            # a setter of the k-th dimension descriptor of the array: array.dimensions[k].<m> = v
+            setattr(o.dimensions[args["dim"]], m, v)
+        elif how == "dimcall":
+            # a method of the k-th dimension descriptor (link_data_array / link_data_frame)
+            a = [self.fetch(ref)] if ref is not None else []
+            getattr(o.dimensions[args["dim"]], m)(*(a + self.special(args.get("args", []))))
+        elif how == "dimlink":
+            # the target e is the data object a dimension of the array `owner` is linked to; the assignment goes
+            # through that dimension: owner.dimensions[k].<m> = v   (DimensionLink writes e's label / unit)
+            setattr(self.actor(args["owner"], args.get("h", 0)).dimensions[args["dim"]], m, v)
         elif how == "container":
             cont = getattr(o, args["container"])
             getattr(cont, m)(v)
@@ -406,7 +438,7 @@ class Session:
         else:
             raise RuntimeError("unknown call style")
         if observe:
-            after = self.read_attr(e, m)
+            after = self.read_attr(e, attr)
             if before[0] == "ok" and after[0] == "ok":
                 self.last_call["changed"] = before != after
             elif before[0] != after[0]:
@@ -522,7 +554,7 @@ class Session:
 
 
 def canon_value(v):
-    """attribute values in a comparable form (entities by id, sequences as lists, enums by value)"""
+    """attribute values in a comparable form (entities by id and name, sequences as lists, enums by value)"""
     import numpy as np
     if v is None or isinstance(v, (str, bool, int, float)):
         return v
@@ -533,7 +565,11 @@ def canon_value(v):
     if isinstance(v, (list, tuple, np.ndarray)):
         return [canon_value(x) for x in v]
     if hasattr(v, "id") and hasattr(v, "_h5group"):
-        return ["entity", v.id]
+        # id AND name: a copy made with copy_from=... keeps the id of its source, yet is another entity
+        try:
+            return ["entity", v.id, v.name]
+        except Exception:
+            return ["entity", v.id]
     if hasattr(v, "value") and hasattr(v, "name"):
         return ["enum", canon_value(v.value)]
     return repr(v)
@@ -802,6 +838,85 @@ CATALOGUE = {
 for _k, _l in REFUSED_CALLS.items():
     CATALOGUE[_k] = CATALOGUE[_k] + _l
 
+# ---------------------------------------------------------------------------------------
+# dimension descriptors: setters and link methods of array.dimensions[k] (via = the dimension's class; none of them
+# is in the property's list: no time stamp may change), and the label / unit setters of a dimension that is LINKED to
+# a data object (via = DimensionLink, target = the linked object, whose label / unit / units they write)
+
+
+def _dim(cls, value, linked=None, unlink=False):
+    """a dimension of class `cls` of the current array: unlinked ones (linked=None), linked ones (True), any (False)"""
+    def f(g):
+        ks = [k for k, d in enumerate(g.dims(g.cur)) if d["cls"] == cls and (
+            linked is False or (d["link"] is not None) == bool(linked))]
+        if not ks:
+            return None
+        k = g.rng.choice(ks)
+        if unlink:
+            g.dims(g.cur)[k]["link"] = None
+        return {"how": "dim", "dim": k, "value": value(g) if callable(value) else value}
+    return f
+
+
+def _dim_link(kind, good=True):
+    def f(g):
+        ks = [k for k, d in enumerate(g.dims(g.cur)) if d["cls"] == "RangeDimension"]
+        x = g.pick(kind, block_of=g.cur)
+        if not ks or x is None:
+            return None
+        k = g.rng.choice(ks)
+        if kind == "data_array":
+            index = [-1] if good else [0]
+        else:
+            index = g.rng.choice([0, 1]) if good else 7
+        if good:
+            g.dims(g.cur)[k]["link"] = x
+        return {"how": "dimcall", "dim": k, "ref": x, "args": [index]}
+    return f
+
+
+def _linked_through(value, frame_units=None):
+    """the current entity is the data object some dimension is linked to: assign through that dimension
+    (frame_units: only when the linked frame has / has no units - without units the assignment is refused)"""
+    def f(g):
+        c = [(o, k) for o in g.alive("data_array") for k, d in enumerate(g.dims(o)) if d["link"] == g.cur]
+        if not c or (frame_units is not None and bool(g.ents[g.cur].get("has_units")) != frame_units):
+            return None
+        o, k = g.rng.choice(c)
+        return {"how": "dimlink", "owner": o, "dim": k, "value": value(g) if callable(value) else value}
+    return f
+
+
+DIM_CALLS = {
+    "data_array": [
+        ("label", "SampledDimension", "good", _dim("SampledDimension", lambda g: g.word())),
+        ("unit", "SampledDimension", "good", _dim("SampledDimension", lambda g: g.rng.choice(["ms", "s", None]))),
+        ("sampling_interval", "SampledDimension", "good", _dim("SampledDimension", lambda g: g.rng.choice([0.25, 2]))),
+        ("offset", "SampledDimension", "good", _dim("SampledDimension", lambda g: g.rng.choice([1.5, None]))),
+        ("sampling_interval", "SampledDimension", "early", _dim("SampledDimension", "x")),
+        ("label", "RangeDimension", "good", _dim("RangeDimension", lambda g: g.word())),
+        ("unit", "RangeDimension", "good", _dim("RangeDimension", lambda g: g.rng.choice(["mV", "s"]))),
+        ("ticks", "RangeDimension", "good", _dim("RangeDimension", [1.0, 2.0, 5.0], linked=False, unlink=True)),
+        ("ticks", "RangeDimension", "early", _dim("RangeDimension", [3.0, 1.0], linked=False)),
+        ("labels", "SetDimension", "good", _dim("SetDimension", ["a", "b"])),
+        ("labels", "SetDimension", "early", _dim("SetDimension", [1, 2])),
+        ("link_data_array", "RangeDimension", "good", _dim_link("data_array")),
+        ("link_data_frame", "RangeDimension", "good", _dim_link("data_frame")),
+        ("link_data_array", "RangeDimension", "early", _dim_link("data_array", good=False)),
+        ("link_data_frame", "RangeDimension", "early", _dim_link("data_frame", good=False)),
+        ("label", "DimensionLink", "good", _linked_through(lambda g: g.word())),
+        ("unit", "DimensionLink", "good", _linked_through(lambda g: g.rng.choice(["mV", "s", "kHz", "ms"]))),
+    ],
+    "data_frame": [
+        ("unit", "DimensionLink", "good", _linked_through(lambda g: g.rng.choice(["mV", "s", "kHz", "ms"]), True)),
+        ("unit", "DimensionLink", "early", _linked_through("mV", False)),
+        ("label", "DimensionLink", "early", _linked_through(lambda g: g.word())),
+    ],
+}
+for _k, _l in DIM_CALLS.items():
+    CATALOGUE[_k] = CATALOGUE[_k] + _l
+
+
 
 # ---------------------------------------------------------------------------------------
 # refused creations: every way the create_* factories refuse a call AFTER the name checks passed (inside the
@@ -902,6 +1017,14 @@ class Gen:
         b = self.block_of(near)
         c = [i for i in self.alive(kind) if self.block_of(i) != b]
         return self.rng.choice(c) if c else None
+
+    def dims(self, i):
+        """the dimension descriptors of array i: [{"cls": class name, "link": linked entity or None}]"""
+        return self.ents[i].setdefault("dimlist", [])
+
+    def linked_targets(self, kind):
+        t = set(d["link"] for o in self.alive("data_array") for d in self.dims(o) if d["link"] is not None)
+        return [i for i in self.alive(kind) if i in t]
 
     def size(self):
         return self.ents[self.cur].get("size", 3)
@@ -1025,6 +1148,13 @@ class Gen:
         e = target if target is not None else self.rng.choice(cands)
         kind = self.ents[e]["kind"]
         m, via, inp, build = entry or self.rng.choice(CATALOGUE[kind])
+        if via == "DimensionLink":
+            # the target is a data object some dimension is linked to
+            c = self.linked_targets(kind)
+            if not c:
+                return None
+            if e not in c:
+                e = self.rng.choice(c)
         self.cur = e
         args = build(self)
         if args is None:
@@ -1036,6 +1166,15 @@ class Gen:
             return None
         if m in ("write_direct", "append", "__setitem__", "data_extent") and via is None:
             self.ents[e]["unsorted"] = True
+        if via is None and inp == "good" and kind == "data_frame" and m == "units":
+            self.ents[e]["has_units"] = True
+        if via is None and inp == "good" and kind == "data_array":
+            if m == "delete_dimensions":
+                self.ents[e]["dimlist"] = []
+            elif m.startswith("append_") and m.endswith("dimension") or m == "append_range_dimension_using_self":
+                self.dims(e).append({"cls": {"append_set_dimension": "SetDimension",
+                                             "append_sampled_dimension": "SampledDimension"}.get(m, "RangeDimension"),
+                                     "link": e if m == "append_range_dimension_using_self" else None})
         if kind == "property":
             if m == "odml_type" and inp == "good" and self.ents[e].get("novalues"):
                 return None
@@ -1043,7 +1182,7 @@ class Gen:
                 self.ents[e]["novalues"] = (m == "delete_values" or not args.get("value"))
             if inp == "good" and m == "extend_values":
                 self.ents[e]["novalues"] = False
-        self.count("call.%s.%s.%s" % (kind, m, inp))
+        self.count("call.%s.%s.%s" % (kind, m if via is None else "%s.%s" % (via, m), inp))
         if self.rng.random() < 0.5:
             # through a handle that was obtained earlier and kept (0 / absent = a freshly fetched one)
             args = dict(args, h=self.rng.randint(1, 3))
@@ -1160,13 +1299,14 @@ class Gen:
             self.auto = auto
             for kind in KINDS:
                 for entry in CATALOGUE[kind]:
-                    t = self.pick(kind)
-                    if t is None:
-                        continue
-                    ops.append(self.op_clock_forward())
-                    op = self.op_call(t, entry)
-                    if op:
-                        ops.append(op)
+                    ts = self.alive(kind)
+                    self.rng.shuffle(ts)
+                    for t in ts:
+                        op = self.op_call(t, entry)
+                        if op:
+                            # (the clock is advanced before each call)
+                            ops += [self.op_clock_forward(), op]
+                            break
         return ops
 
 
@@ -1183,7 +1323,7 @@ class Gen:
 R = "@ref"       # ("@ref", scene index): an entity of the scene
 
 
-def scene_ops(clock, auto):
+def scene_ops(clock, auto, copies=False):
     """a small file with every entity kind; indices: 1 block, 2/3 sections, 4/5/6 arrays, 7 frame, 8 tag, 9 multi tag
     (positions 4), 10 group, 11 source, 12 property (of 2), 13 feature of 8 (data 5), 14 feature of 9 (data 6),
     15 a second block with 16 array, 17 source, 18 tag (the "entities of another block" of refused calls)"""
@@ -1197,7 +1337,17 @@ def scene_ops(clock, auto):
             c("source", 1, name="o1", type="t"), c("property", 2, name="p1", values=[1, 2]),
             c("feature", 8, data=5, link_type="untagged"), c("feature", 9, data=6, link_type="untagged"),
             c("block", 0, name="b2", type="t"), c("data_array", 15, name="fa", type="t"),
-            c("source", 15, name="fo", type="t"), c("tag", 15, name="ft", type="t")]
+            c("source", 15, name="fo", type="t"), c("tag", 15, name="ft", type="t")] + (
+        # 19: a copy of array 5 that keeps its id (Block.create_data_array(copy_from=...)): another entity which
+        # compares equal to its source (oracle histories only: copies are not modelled)
+        [c("data_array", 1, name="a2 copy", copy_from=5)] if copies else [])
+
+
+# values that differ from the stored one although they compare equal to it (the copy 19 of array 5 has the id of 5):
+# assigning them changes the attribute
+COPY_VALUES = {("multi_tag", "positions"): [(R, 5), (R, 19), (R, 5)],
+               ("multi_tag", "extents"): [(R, 5), (R, 19), (R, 5)],
+               ("feature", "data"): [(R, 5), (R, 19), (R, 5)]}
 
 
 SCENE_INDEX = {"block": 1, "section": 2, "data_array": 4, "data_frame": 7, "tag": 8, "multi_tag": 9, "group": 10,
@@ -1247,8 +1397,9 @@ def listed_pairs():
     return out
 
 
-def matrix_histories(rng, dist=None):
-    """-> list of (label, ops)"""
+def matrix_histories(rng, dist=None, copies=False):
+    """-> list of (label, ops); copies: the scene holds an id-keeping copy and the link attributes are also switched
+    between an array and its copy"""
     out = []
     missing = []
     for kind, m in listed_pairs():
@@ -1265,11 +1416,13 @@ def matrix_histories(rng, dist=None):
             seq.append(v)                    # absent -> present, then overwriting
         for c in clears[:1]:
             seq += [c, sets[-1]]
+        if copies:
+            seq += COPY_VALUES.get((kind, m), [])
         off = [sets[0]] + list(clears[:1]) + [sets[-1]]
         clock = rng.randrange(0, T2100 - 10 ** 7)
         # the switch is set at open time or toggled later, by assignment or by re-opening
         auto0 = rng.random() < 0.6
-        ops = scene_ops(clock, auto0)
+        ops = scene_ops(clock, auto0, copies)
         if not auto0:
             ops.append(rng.choice([["set_auto", True], ["set_auto", True], ["reopen", True]]))
         for phase, values in (("on", seq), ("off", off)):
@@ -1776,14 +1929,18 @@ def check_history(ctx, ops, tag):
                         fail("updated_at of entity %d moved backwards%s" % (i, thru), u1, u0, name)
                 # switch on: changing a listed attribute sets exactly that entity's update time to the clock
                 changed = (sess.last_call or {}).get("changed")
-                if (name == "call" and ok and auto_before and op[3] in LISTED and op[2] is None
+                through_link = name == "call" and isinstance(op[-1], dict) and op[-1].get("how") == "dimlink"
+                if (name == "call" and ok and auto_before and op[3] in LISTED and (op[2] is None or through_link)
                         and 0 <= clock.t < T2100 and changed):
                     for (i, view), (c1, u1) in after.items():
                         if i == target and u1 != clock.t:
                             thru = "" if view == "a fresh handle" else " (read through %s)" % view
-                            fail("changing %s.%s with auto_update_timestamps on did not set updated_at to the "
-                                 "current time%s" % (sess.ents[target]["kind"], op[3], thru), u1, clock.t,
-                                 "%s.%s" % (CLS_OF[sess.ents[target]["kind"]], op[3]))
+                            fail("changing %s.%s%s with auto_update_timestamps on did not set updated_at to the "
+                                 "current time%s" % (sess.ents[target]["kind"], op[3],
+                                                     " through a dimension linked to it" if through_link else "",
+                                                     thru), u1, clock.t,
+                                 "%s.%s" % ("DimensionLink" if through_link else CLS_OF[sess.ents[target]["kind"]],
+                                            op[3]))
                 # force round trip
                 if name in ("force_created", "force_updated") and ok and isinstance(op[2], int) \
                         and not isinstance(op[2], bool) and 0 <= op[2] < T2100:
@@ -1857,7 +2014,7 @@ def oracle(ctx, broken, hints):
         rv = [rv[rng.randrange(2)], rv[2]]
     hist += [h for _, h in refusal_histories(rng, rv, sample=None if broken or not ctx.quick() else 40)]
     hist += [h for _, h in force_histories(rng)]
-    hist += [h for _, h in matrix_histories(rng)]
+    hist += [h for _, h in matrix_histories(rng, copies=True)]
     g = Gen(rng)
     hist.append(g.sweep())
     systematic = len(hist)
@@ -1978,15 +2135,24 @@ MANIFEST = {
                   "entity's updated_at to the clock on EVERY returning path of its body and stamps nothing on any "
                   "raising path (the table of paths - exit x whether the idiom ran - is regenerated from the source by a "
                   "path-sensitive AST analysis on every run, so a setter that loses the idiom, or skips it by an early "
-                  "return or a condition, breaks the build on a named theorem), an entity no operation is directed at "
-                  "keeps both stamps over any history, a created entity starts with both stamps = clock, the getters "
+                  "return or a condition, breaks the build on a named theorem), the label / unit setters of a linked "
+                  "dimension stamp the linked data object, no method of any class stamps anything but its own object "
+                  "(or that linked object), an entity no operation is directed at keeps both stamps over any history, "
+                  "every create_new chain and create_* factory of the source leaves both stamps of the new entity = "
+                  "clock and the model's creation / open / reopen are exactly that (generated creator, factory and "
+                  "File.__init__ shapes), the switch is assigned only by File.__init__ and its own setter (table of "
+                  "every use of the switch in nixio/**/*.py) and over any history equals the user's last assignment, "
+                  "so a listed setter still stamps after any history of refused or accepted calls; the getters "
                   "parse the stored attribute (generated getter shapes: no per-object state), forced stamps read back "
                   "also after reopen, a refused force call changes nothing, forcing one stamp leaves the other.",
-    "level_note": "Trusted: Lean kernel; the AST translator for the setter / getter tables (its flow analysis "
-                  "over-approximates paths; which path a real call takes is not observed); Py.Civil as stand-in for "
-                  "CPython's datetime; the differential runs (controlled clock, every setter of every kind with every "
-                  "class of value incl. clearing ones, all entities' stamps compared after each call on real HDF5 "
-                  "files, read through fresh and kept handles) for the hand-written part of the model.",
+    "level_note": "Trusted: Lean kernel; the AST translator for the setter / getter / creator / switch-use tables (its "
+                  "flow analysis over-approximates paths; which path a real call takes is not observed); Py.Civil as "
+                  "stand-in for CPython's datetime; the differential runs (controlled clock, every setter of every kind "
+                  "with every class of value incl. clearing ones, refused creations and calls of every kind each "
+                  "followed by a probe, dimension and linked-dimension setters, all entities' stamps and the File's "
+                  "switch compared after each call on real HDF5 files, read through fresh and kept handles) for the "
+                  "hand-written part of the model; copies (copy_from=) are exercised by the oracle only.",
     "technique": "Lean 4 proof (decide +kernel day table + induction over operation histories + generated "
-                 "path-sensitive setter table and getter shapes) with differential correspondence",
+                 "path-sensitive setter table, getter / creator / factory / File.__init__ shapes and switch-use table, "
+                 "interpreted in Lean) with differential correspondence",
 }
